@@ -365,3 +365,7 @@ def run(ck: Check, repo: Repo) -> None:
     rule_counters(ck, repo)
     rule_subset(ck, repo)
     rule_exit(ck, repo)
+    r5 = ck.rule("R5", "lint-file's subset is compared like with like (resolved requested paths vs resolved candidates)")
+    from . import c03
+    c03.subset_normalisation(r5, repo)
+    ck.analysed_fn("reuse.covered_files.iter_files", "reuse.covered_files.is_path_ignored")
